@@ -25,7 +25,10 @@ CFG = {
     "enum_always": ("del_space", "del_cells", "remove_bases", "del_ref", "del_mref"),
     "weights": {"new_space": 2.0, "del_space": 2.0, "new_cells": 3.0, "set_formula": 1.0, "del_cells": 3.0,
                 "rename_cells": 0.3, "add_bases": 2.0, "remove_bases": 2.5, "set_ref": 1.5, "del_ref": 1.5,
-                "set_mref": 0.3, "eval": 3.0, "evalall": 0.6, "bad": 0.3, "set_cached": 0.6},
+                "set_mref": 0.3, "eval": 3.0, "evalall": 0.6, "bad": 0.3, "set_cached": 0.6,
+                # the SESSION's handle (mx.cur_space / model.cur_space / parent.cur_space) set to some space, mostly a
+                # nested one, and API use through it (new_cells through cur_space(), mx.defcells)
+                "cur_space": 1.2, "cur_cells": 1.2},
     # a reference that holds a cells or a space is a handle the MODEL keeps: a quarter of the references created
     "obj_refs": 0.25,
     # deletion must be complete whatever the caching mode of the deleted cells and of its readers
@@ -186,6 +189,7 @@ class H(S.Hooks):
                         out.fail("%s.%s is a derived member although no base defines it any more (after %s)" % (
                             p, n, op[0]), hist)
         alive_impls = set()
+        self.check_session_handle(live, op, result, out, hist, stats)
 
         def add_tree(impl):
             alive_impls.add(id(impl))
@@ -242,6 +246,35 @@ class H(S.Hooks):
             out.fail("the dependency graph still has a node of a deleted object (%r)" % (node[0].name,), hist,
                      key=KNOWN_SPACE if self.uncached_in_deleted_space and only_keyless_uncached else
                      "C13-deleted-object-in-formula-globals" if self.objrefs else None)
+
+    def check_session_handle(self, live, op, result, out, hist, stats):
+        """the model's current space is a handle the SESSION holds (set by new_space, mx.cur_space, model.cur_space,
+        parent.cur_space; used by mx.defcells and by everything that goes through cur_space()): after any operation it
+        is None or a space that is in the model, and API use through it acts on a space that is in the model or raises
+        the deleted-object error"""
+        m = live.m
+        with quiet():
+            cur = m.cur_space()
+        if cur is not None:
+            stats["session_handle_checks"] += 1
+            found = None
+            try:
+                found = resolve(m, W.rel(m, cur), "space", None) if cur._is_valid() else None
+            except Exception:   # noqa
+                found = None
+            if found is not cur:
+                self.nontrivial = True
+                out.fail("after %s the model's current space (what mx.cur_space() / model.cur_space() hand out and "
+                         "mx.defcells acts on) is a space that is not in the model any more" % op[0], hist)
+        if op[0] == "cur_cells":
+            stats["session_handle_uses:" + result.split(" ")[0] + (result[3:] if result.startswith("err") else "")] += 1
+            if result.startswith("err") and result not in ("err Deleted", "err Value"):
+                out.fail("API use through the current space (%s) raised %s: neither the deleted-object error nor an "
+                         "ordinary refusal" % (op[3] if len(op) > 3 else "new_cells", result[4:]), hist)
+            elif result.startswith("ok ") and result != "ok none":
+                path = result[3:].rsplit(".", 1)[0]
+                if resolve(m, path, "space", None) is None:
+                    out.fail("API use through the current space created %s, which is not in the model" % result[3:], hist)
 
     def end(self, live, ops, out, stats):
         mine = S.eval_everything(live)
@@ -469,8 +502,48 @@ def run_dynamic(ctx, out, stats, per_motif=8):
                 return
 
 
+def session_family():
+    """[(label, ops)]: the session's handle set to the space that is then deleted, to a child, to a grandchild of it
+    (by mx.cur_space(obj), by <parent>.cur_space(name), or left where new_space put it), the deletion at the top / in
+    the middle of the tree, then API use through the handle (new_cells through mx.cur_space() / model.cur_space(),
+    mx.defcells) and a new space"""
+    out = []
+    tree = [["new_space", "-", "A", []], ["new_space", "A", "X", []], ["new_space", "A.X", "Y", []],
+            ["new_cells", "A.X.Y", "f", F(0, 1)], ["new_space", "-", "B", []], ["new_cells", "B", "g", F(0, 2)]]
+    for victim in ("A", "A.X", "A.X.Y", "B"):
+        for how in ("mx", "parent", "new_space"):
+            for deleted in ("A", "A.X"):
+                for use in ("new_cells", "model", "defcells"):
+                    if how == "new_space":
+                        if victim == "B":
+                            continue
+                        # the handle is where the creation of the space left it
+                        pre = [o for o in tree if not (o[0] == "new_space" and (o[2] if o[1] == "-" else o[1] + "." + o[2]) == victim)]
+                        pre = pre[:1] + [o for o in pre[1:] if o[0] != "new_cells"] if victim == "A" else pre
+                        mk = ["new_space", "-" if "." not in victim else victim.rsplit(".", 1)[0], victim.rsplit(".", 1)[-1], []]
+                        if victim != "A.X.Y":
+                            continue        # creating A or A.X last would leave nothing below it: covered by mx / parent
+                        ops = [o for o in pre if o[0] == "new_space"] + [mk]
+                    else:
+                        ops = [list(o) for o in tree] + [["cur_space", victim, how]]
+                    ops = ops + [["eval", "B", "g", 1], ["del_space", deleted], ["cur_cells", "h", F(0, 3), use],
+                                 ["cur_cells", "k", F(0, 4), "model"], ["new_space", "-", "C", []], ["cur_cells", "f", F(0, 5), use],
+                                 ["evalall"]]
+                    out.append(("current space %s set by %s, %s deleted, then %s" % (victim, how, deleted, use),
+                                [list(o) for o in ops]))
+    return out
+
+
 def run(ctx, out):
     stats = S.run_struct(ctx, out, "C13", CFG, H, 80, 1500, RULE, ops_range=(14, 28))
+    fam = session_family()
+    S.run_family(out, stats, fam, H, CFG, "session_family")
+    out.coverage["evaluations"] += len(fam)
+    out.coverage["rule"] += ("; the session's handle: cur_space set (mx.cur_space / parent.cur_space / by new_space) to "
+                             "random, mostly nested spaces in the random histories and API use through it (new_cells "
+                             "through cur_space(), mx.defcells); plus %d programs = (current space: the deleted space / a "
+                             "child / a grandchild / an unrelated space) x (how it was set) x (deletion at the top / in "
+                             "the middle) x (use afterwards)" % len(fam))
     if len([f for f in out.failures if not f.get("key")]) < 4:
         run_dynamic(ctx, out, stats)
     out.coverage["evaluations"] += stats["dyn_scenarios"]
